@@ -166,12 +166,13 @@ def _view_rows(x, dim):
 class C11(System):
     nontrivial_per_config = False
 
-    def __init__(self, name, mode, depth_q, depth_t, s_kinds, o_kinds, alphabet='hist', tcap_q=None, tcap_t=None):
+    def __init__(self, name, mode, depth_q, depth_t, s_kinds, o_kinds, alphabet='hist', quick_pairs=None, tcap_q=None, tcap_t=None):
         self.name = name
         self.mode = mode            # 'eager' | 'lazy'
         self._dq, self._dt = depth_q, depth_t
         self.s_kinds, self.o_kinds = s_kinds, o_kinds
         self.alphabet = alphabet    # 'hist' | 'units'
+        self.quick_pairs = quick_pairs
         self._tq, self._tt = tcap_q, tcap_t
 
     # ---- engine plumbing ----------------------------------------------------------------------
@@ -185,6 +186,8 @@ class C11(System):
 
     def configs(self, tier, seed):
         cfgs = [(sk, ok) for sk in self.s_kinds for ok in self.o_kinds]
+        if tier == 'quick' and self.quick_pairs is not None:
+            cfgs = [c for c in cfgs if c in self.quick_pairs]
         k = seed % len(cfgs)
         return cfgs[k:] + cfgs[:k]
 
@@ -295,8 +298,12 @@ class C11(System):
             except Exception: rc = None
             if rc:
                 dim, diag = rc
-                return Violation('view-cache', f'[{diag}: cached {dim} view of {w}] ' + v.msg,
-                                 match=dict(kind=_kind(x), diag=diag, door=v.clause), detail=v.detail, residual=None)
+                other = st.o if w == 's' else st.s
+                m = dict(kind=_kind(x), diag=diag, door=v.clause)
+                if diag == 'view-wraps-foreign-data':
+                    # the view dict itself is still shared with the other stream although the molar data no longer is
+                    m['shared_cache'] = bool(x._imol._data_cache is other._imol._data_cache and x._imol.data is not other._imol.data)
+                return Violation('view-cache', f'[{diag}: cached {dim} view of {w}] ' + v.msg, match=m, detail=v.detail, residual=None)
         return v
 
     def _check_view(self, st, who, dim, op):
@@ -756,7 +763,8 @@ SYSTEMS = [
     # every unit / every write door, applied to every stream kind at depth 1 and after one structural step at depth 2
     C11('c11.units', 'eager', 2, 2, ('l', 'g', 'm'), ('l',), alphabet='units'),
     # histories with all views re-read (and thereby cached) after every action
-    C11('c11.eager', 'eager', 3, 4, ('l', 'g', 'm'), ('l', 'g', 'm', 'm3'), tcap_q=60, tcap_t=900),
+    C11('c11.eager', 'eager', 3, 4, ('l', 'g', 'm'), ('l', 'g', 'm', 'm3'),
+        quick_pairs=(('l', 'l'), ('l', 'g'), ('g', 'l'), ('m', 'm'), ('m', 'm3'), ('l', 'm3'), ('m', 'l')), tcap_q=120, tcap_t=900),
     # histories in which views are only created / read by explicit read actions (cache-creation order is explored)
-    C11('c11.lazy', 'lazy', 3, 4, ('l', 'm'), ('l', 'm', 'm3'), tcap_q=60, tcap_t=900),
+    C11('c11.lazy', 'lazy', 3, 4, ('l', 'm'), ('l', 'm', 'm3'), tcap_q=120, tcap_t=900),
 ]
